@@ -1597,5 +1597,9 @@ class StarterModel(Starter):
                                  for command in job_list]
         super().next()
 
+    def after(self, application_job: ApplicationStartJobsModel) -> None:
+        """ Empty method to cancel the pending application stop (STOP starting failure strategy): a prediction
+        must not trigger any request. """
+
     def publish_state_modes(self):
         """ Empty method to cancel states & mode publication. """
